@@ -226,7 +226,22 @@ def F23(env):
                                                               np.asarray(cx.dist)))
 
 
-ALL = [F1, F2, F3, F4, F5, F9, F10, F11, F12, F13, F14, F15, F16, F17, F18, F19, F20, F23]
+def F25(env):
+  mujoco, mjx, jax, jp, lib, gx = env
+  print('== F25 get_data corrupts ten_J when a structural entry is exactly zero (dense2sparse drops it, the pattern is static)')
+  xml = ('<mujoco><worldbody><body pos="0 0 1"><joint type="free"/><geom size=".1"/><site name="a"/></body>'
+         '<body pos="1 0 1"><joint type="free"/><geom size=".1"/><site name="b" pos=".1 .1 0"/></body></worldbody>'
+         '<tendon><spatial><site site="a"/><site site="b"/></spatial></tendon></mujoco>')
+  mm = mujoco.MjModel.from_xml_string(xml)
+  md = mujoco.MjData(mm)
+  mujoco.mj_forward(mm, md)
+  back = mjx.get_data(mm, mjx.put_data(mm, md))
+  print('   colind    :', mm.ten_J_colind)
+  print('   original  :', md.ten_J)
+  print('   round trip:', back.ten_J)
+
+
+ALL = [F1, F2, F3, F4, F5, F9, F10, F11, F12, F13, F14, F15, F16, F17, F18, F19, F20, F23, F25]
 
 if __name__ == '__main__':
   env = _setup()
